@@ -126,7 +126,7 @@ func (e *Enc) exec(ins ssa.Instruction, st *State) {
 			// range over a string: the iterator is an object holding the byte position of the next rune
 			obj := e.newObj(st, "iter")
 			e.vals[x] = Val{T: x.Type(), L: []string{obj}}
-			e.store(st, types.Typ[types.Int], obj, m.ilit(0), Val{T: types.Typ[types.Int], L: []string{m.ilit(0)}})
+			e.storeIter(st, obj, m.ilit(0))
 			return
 		}
 		e.vals[x] = Val{T: x.Type(), L: nil, Bad: true}
@@ -142,12 +142,12 @@ func (e *Enc) exec(ins ssa.Instruction, st *State) {
 				it := e.vals[rng]
 				if !s.Bad && !it.Bad && len(it.L) == 1 {
 					e.needUTF8()
-					pos := e.def(e.fresh("itpos"), SI, e.sel2(e.heap(st, SI), it.L[0], m.ilit(0)))
+					pos := e.def(e.fresh("itpos"), SI, e.sel2(e.heap(st, SIter), it.L[0], m.ilit(0)))
 					inRange := and(m.ile(m.ilit(0), pos), m.ilt(pos, "(slen "+s.L[0]+")"))
 					e.emitAssert(e.curBlock, implies(e.reachHere(), and(eq(v.L[0], inRange),
 						implies(v.L[0], and(eq(v.L[1], pos), eq(v.L[2], "(utf8r "+s.L[0]+" "+pos+")"))))))
 					np := ite(v.L[0], m.iadd(pos, "(utf8w "+s.L[0]+" "+pos+")"), pos)
-					e.store(st, types.Typ[types.Int], it.L[0], m.ilit(0), Val{T: types.Typ[types.Int], L: []string{np}})
+					e.storeIter(st, it.L[0], np)
 				} else if !s.Bad {
 					e.needStr()
 					e.emitAssert(-1, implies(v.L[0], and(m.ile(m.ilit(0), v.L[1]), m.ilt(v.L[1], "(slen "+s.L[0]+")"))))
@@ -182,6 +182,14 @@ func (e *Enc) exec(ins ssa.Instruction, st *State) {
 		return
 	}
 	e.abstract(fmt.Sprintf("%T", ins))
+}
+
+// storeIter writes the position of a range-over-string iterator (its own heap component).
+func (e *Enc) storeIter(st *State, obj, pos string) {
+	h := e.heap(st, SIter)
+	nh := e.fresh("H_T")
+	e.emitDecl(fmt.Sprintf("(define-fun %s () %s (store %s %s (store (select %s %s) %s %s)))", nh, e.heapSort(SIter), h, obj, h, obj, e.M.ilit(0), pos))
+	st.H[SIter] = nh
 }
 
 func (e *Enc) boxName(t types.Type) string {
